@@ -220,6 +220,15 @@ def expected_families(metrics):
     return out, True
 
 
+def wire_names(metrics):
+    """family names as written on the HELP/TYPE lines, in order, for every family (regular or not)"""
+    out = []
+    for m in metrics:
+        out.append(m.name + MAPPING[m.type][0])
+        out += [m.name + suf for suf, _ in exposition_order(m)[1]]
+    return out
+
+
 def same_value(a, b):
     try:
         fa, fb = float(a), float(b)
@@ -325,7 +334,10 @@ def oracle(metrics, outcome):
                 fails.append(('timestamp', what))
                 break
     exp, all_regular = expected_families(metrics)
-    if any(exp[i][0] == exp[i + 1][0] for i in range(len(exp) - 1)):
+    wires = wire_names(metrics)
+    if any(wires[i] == wires[i + 1] for i in range(len(wires) - 1)):
+        # two consecutive blocks with one written name are read as one family (tolerated by the property; the
+        # flattened-sample comparison above still applies)
         return fails + [('~merge', '')]
     fails.append(('~full' if all_regular else '~prefix%d' % min(len(exp), 3), ''))
     if len(parsed) < len(exp) or (all_regular and len(parsed) != len(exp)):
